@@ -374,13 +374,16 @@ def gen_c11_server(tier, rng):
     pairs = [("syncSerial", "rtu"), ("syncSerial", "ascii"), ("syncSerial", "bin"), ("syncTcp", "rtu"), ("aioTcp", "ascii"), ("twTcp", "rtu")]
     k = 0
     for fe, kind in pairs:
-        for c in range(6 if tier == "quick" else 40):
+        for c in range(9 if tier == "quick" else 40):
             cfg = {"single": 0, "hosted": [1], "broadcast": 0, "ignore": 1}
             ctx = dm.layout(1, dm.seq_block(0, 8), dm.seq_block(0, 8), dm.seq_block(0, 400), dm.seq_block(0, 8))
             ctx["blocks"]["bh"]["ov"] = [[a, 1000 + a] for a in range(400)]        # distinct values: a response identifies its request
             case = Case("y%d" % k, "resync", fe, kind, cfg, [[1, ctx]])
+            special = [F.pyframe(kind, 0, 0, 1, bytes([3])), F.pyframe(kind, 0, 0, 1, bytes([16, 0, 1])), F.pyframe(kind, 0, 0, 1, bytes([1, 0]))]
             if c < len(fixed[kind]):
                 g = fixed[kind][c]
+            elif c < len(fixed[kind]) + len(special):
+                g = special[c - len(fixed[kind])]       # integrity-checked frame whose PDU is truncated: the decoder raises
             else:
                 g = bytes(rng.randrange(256) for _ in range(rng.choice([1, 2, 5, 17, 40])))
             nreq = (3 * maxframe[kind]) // {"rtu": 8, "ascii": 17, "bin": 10}[kind] + 4
